@@ -69,6 +69,14 @@ def cases(ctx):
             for s_ in c["inputs"]:
                 if s_["dtype"].startswith("float"):
                     s_["data"] = [v * rng.choice([1, 1, 1.015, 5, -40]) if isinstance(v, (int, float)) else v for v in s_["data"]]
+        if cmd in ("CvtToFuzzyZScore", "CvtToFuzzyCurveZScore") and rng.random() < 0.3:
+            # data whose mean is huge compared with its spread (time stamps, projected coordinates), and constant fields of a
+            # number that has no exact binary form: whatever the statistics come to, the result is fuzzy or missing
+            for s_ in c["inputs"]:
+                if s_["dtype"] == "float64":
+                    kind_ = rng.random()
+                    s_["data"] = ([1.7e9 + rng.randint(0, 8) for _ in s_["data"]] if kind_ < 0.5 else [rng.choice([0.1, 0.3, 1e-3])] * len(s_["data"]) if kind_ < 0.75
+                                  else [4.0e6 + rng.randint(0, 3) * 0.1 for _ in s_["data"]])
         if rng.random() < 0.15:
             # NaN stored underneath the missing cells of float inputs (masked_invalid data, NaN fill values)
             c["inputs"] = [arr.with_payload(s_, "nan") for s_ in c["inputs"]]
